@@ -1253,7 +1253,7 @@ func main() {
 	kindQueueConfig(w)
 	// volume first: a few high-volume cyclic scenarios (stop at the first one that goes wrong:
 	// a wedged pipeline costs its whole deadline)
-	nheavy := 4 + o.N/400
+	nheavy := 3 + o.N/300
 	for i := 0; i < nheavy; i++ {
 		if !kindHeavy(w, env, r.Uint64(), &stores) {
 			w.Stat("e2e_heavy_stopped_after_failure", 1)
